@@ -130,41 +130,104 @@ let spec_detail ts (o : doc_obs) =
     (b2s (doc_spec_in ts o))
     (b2s (list_eqb otoken_eqb (fst o.do_read2) (drained o.do_read)))
 
+(* the observation of a captured value: status followed by the six fields, or the status alone *)
+let doc_obs_of st rest =
+  match rest with
+  | [rw; rd; dec; L (A "read2" :: oc2 :: toks2); mar; marin] ->
+    { do_status = status_of st; do_raw = raw_of_sx rw; do_read = read_of rd;
+      do_dec = res_otokens_of dec;
+      do_read2 = (List.map otoken_of toks2, outcome_of oc2);
+      do_mar = res_tokens_of mar; do_mar_in = res_tokens_of marin }
+  | [] ->
+    { do_status = status_of st; do_raw = dummy_raw; do_read = dummy_read;
+      do_dec = Err N0; do_read2 = ([], DFuel); do_mar = Err N0; do_mar_in = Err N0 }
+  | _ -> raise (Parse_error "doc obs")
+
+(* verdicts on one captured document: (agree, spec, kf) -- all three are extracted functions;
+   inside a finding a spec failure the model predicts is the recorded behaviour: the main
+   clauses can only fail inside xml-literal-namespace, the container clause only there or
+   inside embedded-no-namespace *)
+let doc_verdicts ts o =
+  let agree = doc_agrees ts o && input_wf ts and spec = doc_spec_ok ts o
+  and k = doc_kf ts and kin = doc_kf_in ts in
+  let kf =
+    if not agree || spec then "-"
+    else if not (doc_spec_main ts o) then (if k then kf_id else "-")
+    else if kin then kf_in_id
+    else if k then kf_id
+    else "-" in
+  (agree, spec, kf)
+
+let iact_of = function
+  | A "d" -> IDecode
+  | x -> IRead (nat_of_int (int_ x))
+
+let iobs_of = function
+  | A "eof" -> IOCall CEof
+  | A "panic" -> IOCall CPanic
+  | L [A "k"; tok] -> IOCall (CTok (otoken_of tok))
+  | L [A "dec"; d] -> IODec (res_otokens_of d)
+  | x -> raise (Parse_error ("inter obs " ^ show x))
+
 let () =
   run_file Sys.argv.(1) (fun _ sx ->
     match sx with
     (* ---- a well-formed document *)
     | [L [A "doc"; _; L toks; L (A "f" :: feats)]; L (A "obs" :: st :: rest)] ->
       let ts = List.map token_of toks in
-      let o = match rest with
-        | [rw; rd; dec; L (A "read2" :: oc2 :: toks2); mar; marin] ->
-          { do_status = status_of st; do_raw = raw_of_sx rw; do_read = read_of rd;
-            do_dec = res_otokens_of dec;
-            do_read2 = (List.map otoken_of toks2, outcome_of oc2);
-            do_mar = res_tokens_of mar; do_mar_in = res_tokens_of marin }
-        | [] ->
-          { do_status = status_of st; do_raw = dummy_raw; do_read = dummy_read;
-            do_dec = Err N0; do_read2 = ([], DFuel); do_mar = Err N0; do_mar_in = Err N0 }
-        | _ -> raise (Parse_error "doc obs") in
+      let o = doc_obs_of st rest in
       bump "kind_doc"; bump_all "doc_" feats;
       bump (Printf.sprintf "doc_tokens_%s" (let n = List.length ts in if n <= 4 then "le4" else if n <= 16 then "le16" else if n <= 64 then "le64" else "gt64"));
       if List.length ts >= 4 then note_nontrivial (show (List.hd sx));
       let wf = input_wf ts in
       if not wf then bump "doc_input_not_wf";
-      let agree = doc_agrees ts o and spec = doc_spec_ok ts o and k = doc_kf ts and kin = doc_kf_in ts in
+      let k = doc_kf ts and kin = doc_kf_in ts in
       if k then bump "doc_kf_selected";
       if kin then bump "doc_kf_in_selected";
-      (* inside a finding a spec failure the model predicts is the recorded behaviour:
-         the main clauses can only fail inside xml-literal-namespace, the
-         container clause only there or inside embedded-no-namespace *)
-      let kf =
-        if not agree || spec then "-"
-        else if not (doc_spec_main ts o) then (if k then kf_id else "-")
-        else if kin then kf_in_id
-        else if k then kf_id
-        else "-" in
+      let (agree, spec, kf) = doc_verdicts ts o in
       verdict ~agree:(agree && wf) ~spec ~kf
         ~detail:((if wf then "" else "input is not the token sequence of one element; ") ^ doc_detail ts o ^ " | " ^ spec_detail ts o)
+    (* ---- several readers of one captured value *)
+    | [L [A "inter"; _; L toks; n; A mode; L (A "a" :: acts)]; L (A "obs" :: st :: obs)] ->
+      let ts = List.map token_of toks in
+      let n = int_ n in
+      let acts = List.map iact_of acts in
+      bump "kind_inter"; bump ("inter_" ^ mode); bump (Printf.sprintf "inter_readers_%d" n);
+      if List.mem IDecode acts then bump "inter_with_decode";
+      note_nontrivial (show (List.hd sx));
+      if status_of st <> StOk then
+        verdict ~agree:false ~spec:false ~kf:"-" ~detail:"the capture failed"
+      else if doc_kf ts then begin
+        (* a Decode rewrites attribute names of the shared value in place there: not predicted *)
+        bump "inter_kf_skipped";
+        verdict ~agree:true ~spec:true ~kf:"-" ~detail:"inside xml-literal-namespace: skipped"
+      end else begin
+        let obs = List.map iobs_of obs in
+        let nn = nat_of_int n in
+        let agree = inter_agrees ts nn acts obs && input_wf ts and spec = inter_spec_ok ts nn acts obs in
+        verdict ~agree ~spec ~kf:"-"
+          ~detail:(Printf.sprintf "readers=%d mode=%s actions=%d model_agrees=%s spec=%s" n mode (List.length acts) (b2s agree) (b2s spec))
+      end
+    (* ---- captures into one variable, copies kept *)
+    | [L [A "seq"; A via; L docs]; L (A "obs" :: copies)] ->
+      if List.length docs <> List.length copies then raise (Parse_error "seq: copies");
+      let l = List.map2 (fun d c ->
+          match d, c with
+          | L [_; L toks], L (A "c" :: st :: rest) -> (List.map token_of toks, doc_obs_of st rest)
+          | _ -> raise (Parse_error "seq element")) docs copies in
+      bump "kind_seq"; bump ("seq_via_" ^ via); bump (Printf.sprintf "seq_len_%d" (List.length l));
+      note_nontrivial (show (List.hd sx));
+      let vs = List.map (fun (ts, o) -> doc_verdicts ts o) l in
+      let agree = seq_agrees l && List.for_all (fun (ts, _) -> input_wf ts) l and spec = seq_spec_ok l in
+      (* a finding explains the case only if it explains every copy that fails the specification *)
+      let failing = List.filter (fun (_, sp, _) -> not sp) vs in
+      let kf =
+        if not agree || spec then "-"
+        else if List.for_all (fun (_, _, k) -> k <> "-") failing
+        then (match failing with (_, _, k) :: _ -> k | [] -> "-")
+        else "-" in
+      let bad = List.mapi (fun i (a, sp, _) -> if a && sp then "" else Printf.sprintf "copy%d(agree=%s spec=%s) " i (b2s a) (b2s sp)) vs in
+      verdict ~agree ~spec ~kf ~detail:(Printf.sprintf "via=%s copies=%d %s" via (List.length l) (String.concat "" bad))
     (* ---- a malformed document *)
     | [L [A "bad"; _; L toks]; L [A "obs"; st]] ->
       let ts = List.map token_of toks in
